@@ -7,6 +7,7 @@ import (
 	"errors"
 	"fmt"
 	"io"
+	"runtime"
 	"strconv"
 	"strings"
 	"time"
@@ -165,7 +166,8 @@ type c16Data struct {
 	DirectOnly   bool  `json:"direct_only,omitempty"`
 	SlowClient   bool  `json:"slow_client,omitempty"`
 	Reapplied    bool  `json:"second_configuration,omitempty"`
-	Wait2        int64 `json:"wait_after_reload,omitempty"` // waiting time set by a reload at runtime (0 = unchanged)
+	Wait2        int64 `json:"wait_after_reload,omitempty"`    // waiting time set by a reload at runtime (0 = unchanged)
+	Zip2         int   `json:"zip_min_after_reload,omitempty"` // compression threshold set by a reload at runtime (0 = unchanged)
 	ReconfCall   int64 `json:"reload_call,omitempty"`
 	ReconfRet    int64 `json:"reload_return,omitempty"`
 	stalls       int
@@ -448,8 +450,45 @@ func c16Body(configured bool) func(rc *RunCtx) {
 					}
 				}
 			}
+			// ... or (one reload in three) the compression threshold moves, up or down, while a
+			// batch may be between being wrapped into a pack and being compressed
+			newZip := d.ZipMin
+			if simrt.ChanceF(1, 3) {
+				newSize, newWait = d.QueueSize, d.WaitMs
+				for _, z := range []int{100000, 1, 4096, 100} {
+					if z != d.ZipMin && simrt.ChanceF(1, 2) {
+						newZip = z
+						break
+					}
+				}
+			}
+			// in half of the threshold reloads the reload is not timed by the clock: it parks until
+			// the sender is inside a flush (seen through the clock reading that stamps the pack) and
+			// is runnable from then on, the schedule deciding where in the flush it lands
+			targeted := newZip != d.ZipMin && simrt.ChanceF(1, 2)
+			var zipWait []*simrt.Task
+			if targeted {
+				simrt.ClockReadHook = func() {
+					if len(zipWait) > 0 && c16CalledFrom(".sendAndClear") {
+						for _, t := range zipWait {
+							simrt.MakeRunnable(t)
+						}
+						zipWait = nil
+						simrt.Probe("reload_woken_inside_flush")
+					}
+				}
+				simrt.OnReset(func() { simrt.ClockReadHook = nil })
+			}
 			tk := simrt.GoNamed("reconfig", func() {
-				simrt.Sleep(time.Duration(at) * time.Millisecond)
+				if targeted {
+					simrt.SleepOrWake(time.Duration(int64(at)+2*d.WaitMs)*time.Millisecond, &zipWait)
+				} else {
+					simrt.Sleep(time.Duration(at) * time.Millisecond)
+				}
+				if newZip != d.ZipMin {
+					simrt.Fault("reconfig_zip_min")
+					d.Zip2 = newZip
+				}
 				if newWait != d.WaitMs {
 					simrt.Fault("reconfig_shorter_wait")
 					d.Wait2 = newWait
@@ -459,7 +498,7 @@ func c16Body(configured bool) func(rc *RunCtx) {
 				d.ReconfCall = simrt.Stamp()
 				inst.ApplyConfig(&stubConf{m: map[string]string{
 					"max_buffer_size": strconv.Itoa(d.MaxBuf), "max_wait_time": strconv.FormatInt(newWait, 10),
-					"logsink_zip_min_size": strconv.Itoa(d.ZipMin), "logsink_queue_size": strconv.Itoa(newSize)}})
+					"logsink_zip_min_size": strconv.Itoa(newZip), "logsink_queue_size": strconv.Itoa(newSize)}})
 				d.ReconfRet = simrt.Stamp()
 			})
 			tasks = append(tasks, tk)
@@ -542,6 +581,22 @@ func c16Decode(raw []byte) (ids []int, times []int64, encs []int, payload int, z
 // c16Contents: decoded content per record id of the run being judged (filled by c16Decode)
 var c16Contents = map[int]string{}
 
+// c16CalledFrom reports whether a function whose name ends in suffix is on the caller's stack.
+func c16CalledFrom(suffix string) bool {
+	var pcs [32]uintptr
+	n := runtime.Callers(2, pcs[:])
+	fr := runtime.CallersFrames(pcs[:n])
+	for {
+		f, more := fr.Next()
+		if strings.HasSuffix(f.Function, suffix) {
+			return true
+		}
+		if !more {
+			return false
+		}
+	}
+}
+
 func c16After(rc *RunCtx, res *simrt.Result) {
 	d := rc.Data.(*c16Data)
 	c16Contents = map[int]string{}
@@ -585,8 +640,29 @@ func c16After(rc *RunCtx, res *simrt.Result) {
 		if count != len(ids) {
 			viol("record-count", fmt.Sprintf("pack #%d says RecordCount=%d but contains %d records %v", e.Seq, count, len(ids), ids))
 		}
-		if zipped != (payload >= d.ZipMin) {
-			viol("compression-threshold", fmt.Sprintf("pack #%d: payload %d bytes, compressed=%v, minimum size in force %d", e.Seq, payload, zipped, d.ZipMin))
+		// threshold in force: the configured one; after a reload that moved it, the old one for
+		// packs handed over before the reload began, the new one for packs all of whose records
+		// were added after it had returned, either in between
+		zipOK := zipped == (payload >= d.ZipMin)
+		if d.Zip2 != 0 && d.ReconfCall != 0 {
+			okNew := zipped == (payload >= d.Zip2)
+			allAfter := d.ReconfRet != 0 && len(ids) > 0
+			for _, id := range ids {
+				if r := d.byID[id]; r == nil || r.Call <= d.ReconfRet {
+					allAfter = false
+				}
+			}
+			switch {
+			case e.Stamp < d.ReconfCall:
+			case allAfter:
+				zipOK = okNew
+				rc.Probe("pack_under_reloaded_zip_min")
+			default:
+				zipOK = zipOK || okNew
+			}
+		}
+		if !zipOK {
+			viol("compression-threshold", fmt.Sprintf("pack #%d: payload %d bytes, compressed=%v, minimum size in force %d (after reload %d)", e.Seq, payload, zipped, d.ZipMin, d.Zip2))
 		}
 		if payload == d.ZipMin || payload == d.ZipMin-1 || payload == d.ZipMin+1 {
 			rc.Probe("payload_at_threshold")
